@@ -97,4 +97,17 @@ theorem binarizeGrammar_lhsMass (r : Reordering) (mo : Option MarkovOpts) (g : G
       simp only
       rw [binarizeRule_lhsMass _ _ _ _ _ _ _ x hx h2, h1]
 
+/-! ### concrete instances -/
+
+def exFunc : Func := ["S".toList, "A".toList, "B".toList, "A".toList, "D".toList]
+def exLin : Lin := [[(0, 0), (2, 0), (1, 0)], [(3, 0), (0, 1), (2, 1)]]
+def exG : Grammar := Grammar.add (Grammar.add [] exFunc exLin (.ctx ["S2".toList]) 3) exFunc exLin (.ctx ["T1".toList]) 2
+
+example : lhsMass (binarizeRule (some ⟨1, 1, false⟩) exFunc exLin 3 [] {} exG).2 "S".toList = lhsMass exG "S".toList + 3 := by
+  rw [binarizeRule_lhsMass _ _ _ _ _ _ _ _ (by decide) (by decide)]; rfl
+example : net (binarizeRule none exFunc exLin 3 [] {} []).2 "A".toList = net [] "A".toList + 0 - 3 * 2 := by
+  rw [binarizeRule_net _ _ _ _ _ _ _ _ (by decide)]; rfl
+example : lhsMass (binarizeGrammar .optimal (some ⟨1, 1, true⟩) exG) "S".toList = lhsMass exG "S".toList :=
+  binarizeGrammar_lhsMass _ _ _ _ (by decide) (by simp [exG, Grammar.add, AList.upsert, exFunc])
+
 end TT.Props.C08
